@@ -38,8 +38,11 @@ _IDENT = re.compile(r'^[A-Za-z0-9_.\[\]@]+$')
 def shards(tier, seed):
     per = 600 if tier == 'quick' else 25000
     budget = 40 if tier == 'quick' else 500
-    return [{'kind': 'random', 'count': per, 'budget_s': budget, 'max_g': 12 if tier == 'quick' else 30}
+    _out = [{'kind': 'random', 'count': per, 'budget_s': budget, 'max_g': 12 if tier == 'quick' else 30}
             for _ in range(16)]
+    if tier == 'thorough':
+        _out.append({'kind': 'suite', 'select': ['tests/cirbo/core'], 'budget_s': 900})
+    return _out
 
 
 def _labels_ok(c):
@@ -264,6 +267,11 @@ def gen_case(rng, spec):
 
 def run_shard(spec, ctx):
     install(ctx)
+    if spec.get('kind') == 'suite':
+        from vt import suite
+        import sys
+        suite.run(sys.modules[__name__], ctx, select=spec.get('select'))
+        return
     for i in range(spec['count']):
         if ctx.out_of_time():
             ctx.count('stopped_on_budget')
